@@ -371,6 +371,11 @@ def run_one(item, extra):
     if kind == "corpus":
         scn = corpus.scenario(name)
         seed = 11
+        if cfgname and cfgname != "canonical":
+            # (the same enumeration under a non-FIFO schedule: after the restart the redelivered events of a parent and
+            # of its child are handled in either order)
+            scn["config"] = dict(scn["config"], policy=cfgname)
+            scn["machines"]["m"]["family"] = "corpus:%s/%s" % (name, cfgname)
     else:
         seed = common.run_seed(name)
         rng = random.Random(seed)
@@ -403,9 +408,18 @@ def run_one(item, extra):
     points += psteps if extra["tier"] != "quick" else psteps[::2]
     if extra.get("sample_points") and len(points) > extra["sample_points"]:
         points = rng.sample(points, extra["sample_points"])
+    shuffled = kind == "corpus" and cfgname and cfgname != "canonical"
+    runs = []
     for p in points:
-        dt = rng.choice(DOWNTIMES)
-        res, state, findings = check_point(scn, seed, p, dt, ref_out, arn, request_counts(ref))
+        if shuffled:
+            if p[0] != "step":
+                continue
+            # a long down-time (every timer of the dead process is overdue at the restart) under three schedules
+            runs += [(p, 6.0, seed + 1000 * j) for j in range(3)]
+        else:
+            runs.append((p, rng.choice(DOWNTIMES), seed))
+    for p, dt, pseed in runs:
+        res, state, findings = check_point(scn, pseed, p, dt, ref_out, arn, request_counts(ref))
         total["evaluations"] += 1
         total["sim_seconds"] += res.sim.now - res.sim.epoch
         total["steps"] += res.sim.steps
@@ -428,7 +442,7 @@ def run_one(item, extra):
             total["distinct"].append(common.sha([name, p, dt]))
             total["interleavings"].append(res.sim.order_hash.hexdigest()[:16])
         for f in findings:
-            f.setdefault("seed", seed)
+            f.setdefault("seed", pseed)
             f.setdefault("scenario", scn)
             f["crash_point"] = list(p)
             f["downtime"] = dt
@@ -833,6 +847,7 @@ def main(argv):
     tier = common.tier()
     names = corpus.QUICK if tier == "quick" else sorted(corpus.CORPUS)
     items = [(n, "corpus", "canonical") for n in names]
+    items += [(n, "corpus", "shuffle") for n in ("sync-child-between-tasks", "sync2-child-between-tasks")]
     extra = {"tier": tier}
     if tier == "thorough":
         items += [(i, "generated", "canonical") for i in range(600)]
